@@ -32,7 +32,8 @@ func (c *Ctx) posOf(p token.Pos) string {
 func (c *Ctx) addObl(s *State, o *Obligation) {
 	if s != nil {
 		if k := s.inAbstractLoop(); k > 0 {
-			if ls := c.Spec.Loops[k]; !(ls != nil && ls.Shallow && strings.HasPrefix(o.Kind, "assert@")) {
+			// a shallow loop's body is explored for its ghost asserts and for the effect clause (`forbids`)
+			if ls := c.Spec.Loops[k]; !(ls != nil && ls.Shallow && (strings.HasPrefix(o.Kind, "assert@") || strings.HasPrefix(o.Kind, "forbidden-call@") || strings.HasPrefix(o.Kind, "forbids-callee@"))) {
 				c.skippedAbs[k]++
 				return
 			}
@@ -470,8 +471,12 @@ func (s *State) toLoc(v ssa.Value) *Loc {
 
 func (s *State) set(v ssa.Value, x Value) {
 	if t, ok := x.(string); ok && len(t) >= 48 {
-		if _, isTuple := v.Type().(*types.Tuple); !isTuple {
-			x = s.name(v.Name(), s.C.sortOf(v.Type()), t)
+		vt := v.Type()
+		if cl, isCall := v.(*ssa.Call); isCall {
+			vt = callResultType(cl)
+		}
+		if _, isTuple := vt.(*types.Tuple); !isTuple && vt != nil {
+			x = s.name(v.Name(), s.C.sortOf(vt), t)
 		}
 	}
 	s.Frame.Vals[v] = x
@@ -650,7 +655,25 @@ func (s *State) exec(ins ssa.Instruction) (next []*State, stop bool) {
 		}
 		fr.DeferVals = append(fr.DeferVals, vals)
 	case *ssa.RunDefers:
-		s.runDefers()
+		// the deferred calls run here, last first: a call with a static callee (a function, a method, a closure
+		// literal - which may assign the named results) is executed like a call at this point; this instruction is
+		// re-executed for the remaining ones. Calls through function values and interfaces are not executed (noted).
+		for len(fr.Defers) > 0 {
+			d := fr.Defers[len(fr.Defers)-1]
+			fr.Defers = fr.Defers[:len(fr.Defers)-1]
+			fr.DeferVals = fr.DeferVals[:len(fr.DeferVals)-1]
+			name := calleeName(&d.Call)
+			if isNoopCall(name) {
+				continue
+			}
+			if _, isB := d.Call.Value.(*ssa.Builtin); d.Call.StaticCallee() == nil && !isB || os.Getenv("VCGO_NODEFER") != "" {
+				s.abstracted("deferred call " + name + " not executed")
+				continue
+			}
+			fr.PC--
+			fake := &ssa.Call{Call: d.Call}
+			return s.doCall(fake, &fake.Call)
+		}
 	case *ssa.Go:
 		top := fr
 		for top.Caller != nil {
